@@ -36,7 +36,7 @@ def run(chk):
     if gi is None:
         chk.broken_obligation("translator/table-extractor", err)
     chk.prove(["Props/Properties_C12.v"])
-    n = 400 if chk.tier == "quick" else 30000
+    n = 1500 if chk.tier == "quick" else 60000
     cases = [sc.gen_api_program(chk.rng, i) for i in range(n)]
     sc.run_sim(chk, cases, oracle, "sim-C12", leaks=True, compare=False)
     return chk.finish(**FINISH)
